@@ -37,12 +37,12 @@ func jitterC(seed int64) func(simnet.Link) {
 }
 
 func unitC20crypto(e common.Env, p *common.Part) {
-	p.Rule = "race-detector build; BLS and PS key generation through real Loud/Silent schemes on the simulated network in concurrent mode (one dispatcher goroutine per link, micro-delays), staggered first calls; in the 'out-of-phase' scenarios one participant re-sends, right behind each of its transmissions and after a PRNG delay of 0..200 us, a broadcast-class protocol message (commitment / public key) it had sent in an earlier key generation on the same cluster, and duplicates its traffic; repeated because reports vary per run; distinct key = (scheme, mode, scenario, repetition); non-trivial when >=2 dispatcher goroutines were active"
+	p.Rule = "race-detector build; BLS and PS key generation through real Loud/Silent schemes on the simulated network in concurrent mode (one dispatcher goroutine per link, micro-delays), staggered first calls; in the 'out-of-phase' scenarios one participant re-sends, right behind each of its transmissions and after a PRNG delay of 0..200 us, a broadcast-class protocol message (commitment / public key) it had sent in an earlier key generation on the same cluster, and duplicates its traffic; in the 'deadline-with-straggler' scenarios (directly wired, one dispatcher goroutine per link, everybody honest) one party's context ends after 5..20 ms while another party's share / commitment / key for it is handed over within 2 ms of that moment; repeated because reports vary per run; distinct key = (scheme, mode, scenario, repetition); non-trivial when >=2 dispatcher goroutines were active"
 	reps := e.Pick(10, 100)
 	idx := 0
 	for r := 0; r < reps; r++ {
 		for _, sch := range []scheme{{Name: "bls"}, {Name: "ps", MsgLen: 1}} {
-			for _, sc := range []string{"honest-loud", "honest-silent", "out-of-phase", "out-of-phase"} {
+			for _, sc := range []string{"honest-loud", "honest-silent", "out-of-phase", "out-of-phase", "deadline-with-straggler", "deadline-with-straggler"} {
 				idx++
 				if !e.Mine(idx) {
 					continue
@@ -63,7 +63,103 @@ func unitC20crypto(e common.Env, p *common.Part) {
 	}
 }
 
+// runC20straggler: directly wired key generation, one dispatcher goroutine per link; party 1's context ends after D (5..20 ms)
+// while the j-th message of party 3 to party 1 (its share, its commitment or its key) is held back and handed over D +- 2 ms
+// after the start, i.e. right around the moment party 1 gives up. Everybody is honest; only a timer and a slow link are involved.
+func runC20straggler(sch scheme, rep int, rng *rand.Rand) (int, int) {
+	ids := []uint16{1, 2, 3}
+	kgs := map[uint16]tss.KeyGenerator{}
+	type lm struct {
+		data  []byte
+		bcast bool
+	}
+	links := map[[2]uint16]chan lm{}
+	for _, a := range ids {
+		for _, b := range ids {
+			if a != b {
+				links[[2]uint16{a, b}] = make(chan lm, 64)
+			}
+		}
+	}
+	stop := make(chan struct{})
+	D := time.Duration(5+rng.Intn(16)) * time.Millisecond
+	late := D + time.Duration(rng.Intn(4000)-2000)*time.Microsecond
+	j := rep % 3
+	start := time.Now()
+	var lw sync.WaitGroup
+	held := int32(0)
+	for k, ch := range links {
+		k, ch := k, ch
+		lw.Add(1)
+		go func() {
+			defer lw.Done()
+			idx := 0
+			for {
+				select {
+				case <-stop:
+					return
+				case m := <-ch:
+					if k == [2]uint16{3, 1} && idx == j {
+						if w := late - time.Since(start); w > 0 {
+							time.Sleep(w)
+						}
+						atomic.AddInt32(&held, 1)
+					}
+					idx++
+					kgs[k[1]].OnMsg(m.data, k[0], m.bcast)
+				}
+			}
+		}()
+	}
+	for _, p := range ids {
+		p := p
+		kg := sch.newKG(p)
+		kgs[p] = kg
+		kg.Init(append([]uint16{}, ids...), 2, func(msg []byte, bcast bool, to uint16) {
+			cp := append([]byte{}, msg...)
+			if bcast {
+				for _, d := range ids {
+					if d != p {
+						select {
+						case links[[2]uint16{p, d}] <- lm{cp, true}:
+						default:
+						}
+					}
+				}
+				return
+			}
+			select {
+			case links[[2]uint16{p, to}] <- lm{cp, false}:
+			default:
+			}
+		})
+	}
+	var wg sync.WaitGroup
+	for _, p := range ids {
+		p := p
+		d := D + 40*time.Millisecond
+		if p == 1 {
+			d = D
+		}
+		wg.Add(1)
+		go func() {
+			defer wg.Done()
+			ctx, cancel := context.WithTimeout(context.Background(), d)
+			defer cancel()
+			kgs[p].KeyGen(ctx)
+		}()
+	}
+	wg.Wait()
+	time.Sleep(3 * time.Millisecond)
+	close(stop)
+	lw.Wait()
+	return len(links), int(atomic.LoadInt32(&held))
+}
+
 func runC20crypto(sch scheme, sc string, rep int, rng *rand.Rand) (int, int) {
+	if sc == "deadline-with-straggler" {
+		return runC20straggler(sch, rep, rng)
+	}
 	n := 3
 	ids := []uint16{1, 2, 3}
 	m := map[uint16]uint16{1: 1, 2: 2, 3: 3}
